@@ -1,3 +1,25 @@
 //! Safe-Rust verification hooks for this module (accessors/wrappers only; no logic).
 #![allow(unused_imports, dead_code)]
 use super::*;
+
+// --- C31 (np_misc_h): IpFilter is crate-private; wrapper + thin forwarding calls.
+pub struct Filter(pub(crate) IpFilter);
+pub fn filter_new(subnets: &[IpSubnet]) -> Filter {
+    Filter(IpFilter::new(subnets))
+}
+pub fn filter_is_in(f: &Filter, addr: IpAddr) -> bool {
+    f.0.is_in(addr)
+}
+pub fn filter_node_count(f: &Filter) -> (usize, usize) {
+    (f.0.ipv4_filter.nodes.len(), f.0.ipv6_filter.nodes.len())
+}
+
+// --- C17/C18/C19 (np_srvnts_h): raw constructor for a one-node filter (no `IpFilter::new`, which is
+// C31's subject and very expensive to execute symbolically). Bit i of `v4_top`/`v6_top` set <=> every
+// address whose most significant nibble is i is in the set; all other addresses are outside.
+pub fn filter_from_top_nibbles(v4_top: u16, v6_top: u16) -> Filter {
+    Filter(IpFilter {
+        ipv4_filter: BitTree { nodes: vec![TreeNode { child_offset: 1, inset: v4_top, outset: !v4_top }] },
+        ipv6_filter: BitTree { nodes: vec![TreeNode { child_offset: 1, inset: v6_top, outset: !v6_top }] },
+    })
+}
